@@ -44,7 +44,15 @@ func parseStubTarget(k string) (pkg, recv, name string, ptr bool, ok bool) {
 }
 
 // rewriteStubs returns overlay entries (original file -> rewritten file) for the given stubs.
-func rewriteStubs(stubs map[string]string, unitPkg string, outDir string) (map[string]string, []string) {
+func rewriteStubs(stubs map[string]string, unitPkg string, outDir string, override map[string]string) (map[string]string, []string) {
+	srcOf := func(p string) any {
+		if o, ok := override[p]; ok {
+			if b, err := os.ReadFile(o); err == nil {
+				return b
+			}
+		}
+		return nil
+	}
 	repl := map[string]string{}
 	var notes []string
 	type edit struct{ recv, name, harness string }
@@ -70,7 +78,7 @@ func rewriteStubs(stubs map[string]string, unitPkg string, outDir string) (map[s
 			}
 			p := filepath.Join(dir, e.Name())
 			fset := token.NewFileSet()
-			f, err := parser.ParseFile(fset, p, nil, parser.SkipObjectResolution)
+			f, err := parser.ParseFile(fset, p, srcOf(p), parser.SkipObjectResolution)
 			if err != nil {
 				continue
 			}
@@ -92,7 +100,7 @@ func rewriteStubs(stubs map[string]string, unitPkg string, outDir string) (map[s
 	}
 	for p, eds := range byFile {
 		fset := token.NewFileSet()
-		f, err := parser.ParseFile(fset, p, nil, parser.ParseComments|parser.SkipObjectResolution)
+		f, err := parser.ParseFile(fset, p, srcOf(p), parser.ParseComments|parser.SkipObjectResolution)
 		if err != nil {
 			continue
 		}
